@@ -124,12 +124,13 @@ def model_check(spec: SystemSpec, tag="ensmc", timeout=900):
     comps, fixed = spec.constants()
     with common.Scratch(tag) as d:
         with open(os.path.join(d, "MC.tla"), "w") as f:
-            f.write("---- MODULE MC ----\nEXTENDS EnsembleMC\n")
+            f.write("---- MODULE MC ----\nEXTENDS EnsembleRefinesFC\n")
             f.write("MCComps == " + tla(comps) + "\n")
             f.write(f"MCSysMass == {int(round(spec.S * 1000))}\n====\n")
         cfg = os.path.join(d, "MC.cfg")
         with open(cfg, "w") as f:
-            f.write("SPECIFICATION Spec\nCONSTANTS\n Comps <- MCComps\n SysMass <- MCSysMass\nINVARIANT IStop\nINVARIANT IAccounted\n"
-                    "PROPERTY OnlyCompleteMembers\nPROPERTY AccumulatesMemberMass\nPROPERTY Termination\n")
+            f.write("SPECIFICATION HSpec\nCONSTANTS\n Comps <- MCComps\n SysMass <- MCSysMass\nINVARIANT IStop\nINVARIANT IAccounted\n"
+                    "INVARIANT StartsInsideAccumulation\nINVARIANT FCTheorem\n"
+                    "PROPERTY OnlyCompleteMembers\nPROPERTY AccumulatesMemberMass\nPROPERTY ImplementsFirstCrossing\nPROPERTY Termination\n")
         r = run_tlc(d, "MC", cfg=cfg, workers=2, timeout=timeout, xmx="3g")
     return r
